@@ -9,7 +9,7 @@ class C01(Prop):
     impl_timeout = 30
     rule = ("seeded bigWig inputs: 1–6 chromosomes (names of different lengths; sizes map with extra chromosomes), layouts "
             "dense / sparse / adjacent / touching 0 and the chromosome end / long values / occasional zero-length values, "
-            "1 item up to many sections per chromosome, values = arbitrary finite f32 bit patterns (2 of 3 cases) or small "
+            "1 item up to many sections per chromosome, one chromosome with more than 65535 values under items_per_slot > 65535, values = arbitrary finite f32 bit patterns (2 of 3 cases) or small "
             "integers; × option records (compress, items_per_slot ∈ {1,2,3,7,1024,65535}, block_size ∈ {2,3,5,256}, zooms "
             "auto/none/manual, single/two pass, in-memory, channel size, runtime flavour and threads, iterator / file / "
             "parallel source, sorted-by-start mode with chromosomes out of order); queries: the full span of every "
@@ -60,6 +60,17 @@ class C01(Prop):
             for key in ("compress", "pass", "src", "rt", "inmem"):
                 tags.add(f"{key}={o[key]}")
             out.append(CaseT(f"w{k}", "wig", [], lines, tags))
+        # items_per_slot beyond what a section's 16-bit item count can hold, with a chromosome that has more values than that
+        for k in range(2 if tier == "thorough" else 1):
+            r = rng.fork(f"ips_over_u16_{k}")
+            n = 65536 + r.range(5, 4000)
+            data = {"chr1": [(2 * i, 2 * i + 1, bbgen.f32bits(float(1 + i % 5))) for i in range(n)], "chr2": [(3, 9, bbgen.f32bits(2.0))]}
+            sizes = {"chr1": 2 * n + 10, "chr2": 50}
+            o = bbgen.gen_options(r, tier)
+            o.update({"ips": r.choice([65536, 70000, 100000]), "zooms": "none", "src": "iter", "sort": "all"})
+            lines = [bbgen.opt_line(o)] + bbgen.wig_lines(["chr1", "chr2"], sizes, data)
+            lines += [f"Q iv chr1 0 {sizes['chr1']}", "Q iv chr2 0 50", f"Q iv chr1 {2 * 65535 - 3} {2 * 65535 + 7}"]
+            out.append(CaseT(f"ipsbig{k}", "wig", [], lines, {"items_per_slot_over_u16", "multi_chrom", "multi_section"}))
         return out
 
     def model_extra(self, case, il):
